@@ -586,7 +586,7 @@ class NpModule(object):
                   'asarray', 'array', 'can_cast', 'issubsctype', 'issubdtype', 'isrealobj', 'iscomplexobj', 'result_type',
                   'where', 'sum', 'max', 'min', 'dot', 'vdot', 'tensordot', 'array_equal', 'isfinite', 'isnan', 'any', 'all',
                   'float_power', 'copyto', 'full', 'full_like', 'promote_types', 'isclose', 'allclose', 'ndim', 'shape', 'size',
-                  'errstate', 'lib', 'swapaxes', 'arange', 'diff'):
+                  'errstate', 'lib', 'swapaxes', 'arange', 'diff', 'hstack', 'atleast_1d', 'linspace', 'searchsorted', 'isinf'):
             t[n] = ip.Builtin('np.' + n, getattr(self, 'f_' + n))
         t['linalg'] = I.PyModule('numpy.linalg', {'norm': ip.Builtin('np.linalg.norm', self.f_norm)})
 
@@ -837,15 +837,25 @@ class NpModule(object):
         return self._reduce(I, fr, 'sum', args[0])
 
     def f_max(self, I, fr, args, kwargs):
+        if isinstance(args[0], (list, tuple)) and all(isinstance(x, int) for x in args[0]):
+            return max(args[0])
         return self._reduce(I, fr, 'max', args[0])
 
     def f_min(self, I, fr, args, kwargs):
         return self._reduce(I, fr, 'min', args[0])
 
     def f_any(self, I, fr, args, kwargs):
+        if isinstance(args[0], carr.CArr):
+            return carr.reduce_bool(I, fr, args[0], 'any')
+        if isinstance(args[0], (bool, S)):
+            return args[0]
         return self._reduce(I, fr, 'any', args[0])
 
     def f_all(self, I, fr, args, kwargs):
+        if isinstance(args[0], carr.CArr):
+            return carr.reduce_bool(I, fr, args[0], 'all')
+        if isinstance(args[0], (bool, S)):
+            return args[0]
         return self._reduce(I, fr, 'all', args[0])
 
     def f_dot(self, I, fr, args, kwargs):
@@ -916,12 +926,17 @@ class NpModule(object):
 
     def f_isclose(self, I, fr, args, kwargs):
         a, b = args[:2]
+        if isinstance(a, carr.CArr) or isinstance(b, carr.CArr):
+            return carr.ufunc(I, fr, 'eq', [a, b])      # K8: exact equality over the reals
         if I.scalar_kind(a) is not None and I.scalar_kind(b) is not None:
             return core.sc_eq(a, b) if core.is_sym(a) or core.is_sym(b) else abs(a - b) <= 1e-8 + 1e-5 * abs(b)
         raise Unsupported('np.isclose on arrays')
 
     def f_allclose(self, I, fr, args, kwargs):
-        return self.f_isclose(I, fr, args, kwargs)
+        r = self.f_isclose(I, fr, args, kwargs)
+        if isinstance(r, carr.CArr):
+            return carr.reduce_bool(I, fr, r, 'all')
+        return r
 
     def f_ndim(self, I, fr, args, kwargs):
         a = unwrap(I, fr, args[0])
@@ -933,6 +948,10 @@ class NpModule(object):
 
     def f_shape(self, I, fr, args, kwargs):
         a = unwrap(I, fr, args[0])
+        if isinstance(a, carr.CArr):
+            return a.shape
+        if isinstance(a, (list, tuple)) and all(I.scalar_kind(x) is not None for x in a):
+            return (len(a),)
         if isinstance(a, PArr):
             return a.pv_getattr(I, fr, 'shape')
         if I.scalar_kind(a) is not None:
@@ -941,11 +960,58 @@ class NpModule(object):
 
     def f_size(self, I, fr, args, kwargs):
         a = unwrap(I, fr, args[0])
+        if isinstance(a, carr.CArr):
+            return a.pv_getattr(I, fr, 'size')
+        if isinstance(a, (list, tuple)):
+            return len(a)
         if isinstance(a, PArr):
             return a.pv_getattr(I, fr, 'size')
         if I.scalar_kind(a) is not None:
             return 1
         raise Unsupported('np.size')
+
+    def f_hstack(self, I, fr, args, kwargs):
+        return carr.hstack(I, fr, args[0])
+
+    def f_atleast_1d(self, I, fr, args, kwargs):
+        a = args[0]
+        if isinstance(a, carr.CArr):
+            return a
+        if I.scalar_kind(a) is not None:
+            return carr.list_array([a])
+        if isinstance(a, (list, tuple)) and all(I.scalar_kind(x) is not None for x in a):
+            return carr.list_array(list(a))
+        raise Unsupported('np.atleast_1d of %r' % (a,))
+
+    def f_linspace(self, I, fr, args, kwargs):
+        num = args[2] if len(args) > 2 else kwargs.get('num', 50)
+        if kwargs.get('endpoint', True) is not True:
+            raise Unsupported('np.linspace endpoint=False')
+        return carr.linspace(args[0], args[1], num)
+
+    def f_searchsorted(self, I, fr, args, kwargs):
+        """K6: side='left' on a strictly increasing array c of length n: the unique k in [0, n] with c[k-1] < v <= c[k].
+        Strict monotonicity of c is a precondition that the caller's harness establishes (obligation elsewhere)."""
+        c, v = args[0], args[1]
+        if not isinstance(c, carr.CArr) or c.ndim != 1 or kwargs.get('side', 'left') != 'left':
+            raise Unsupported('np.searchsorted form')
+        n = c.shape[0]
+        k = S(z3.Int(fr.st.fresh('ss')))
+        fr.st.assume(s_and(k >= 0, k <= S.lift(n)))
+        fr.st.assume(S(z3.Implies((k > 0).t, (c.at((k - 1,)) < v).t)))
+        fr.st.assume(S(z3.Implies((k < S.lift(n)).t, (S.lift(v) <= c.at((k,))).t)))
+        fr.st.events.append(('searchsorted', c, k))
+        return k
+
+    def f_isinf(self, I, fr, args, kwargs):
+        a = args[0]
+        if isinstance(a, carr.CArr):
+            return carr.const_array(False, a.shape)
+        if isinstance(a, S):
+            return False
+        if isinstance(a, (int, float)):
+            return a in (float('inf'), float('-inf'))
+        raise Unsupported('np.isinf of %r' % (a,))
 
     def f_arange(self, I, fr, args, kwargs):
         a = list(args)
